@@ -190,9 +190,32 @@ def inject(sess, suite, n, t, kind):
     sess.count("suite:" + suite)
 
 
+def wrapped_count(sess, suite):
+    """a surplus of exactly 65536 round-one / round-two entries (the count wraps around if it is checked in 16 bits)"""
+    fld = Fld(suite)
+    ids = make_ids(sess, suite, 3, "default")
+    d = Dkg(sess, suite, 3, 2, ids).run()
+    if not d.ok:
+        return
+    me = ids[0]
+    one = d.pkg1[ids[1]]
+    extra1 = ";".join("%s:%s" % (fld.enc(100000 + k), one) for k in range(65536))
+    req = "dkg2 %s sp=%s r1=%s;%s" % (suite, d.sp1[me], r1_str(d.pkg1, me), extra1)
+    r = sess.call(req, NONE, "dkg2-65536-surplus", model=False)
+    sess.oracle(r.err == "IncorrectNumberOfPackages", "part2 accepted 65536 surplus round-one packages past its count check (%s)" % r.raw[:70], [req])
+    sess.case("wrap1|%s|%s" % (suite, d.sp1[me]), nontrivial=True)
+    extra2 = ";".join("%s:%s" % (fld.enc(100000 + k), fld.enc(7)) for k in range(65536))
+    req = "dkg3 %s sp2=%s r1=%s;%s r2=%s;%s" % (suite, d.sp2[me], r1_str(d.pkg1, me), extra1, r2_str(d.r2, me), extra2)
+    r = sess.call(req, NONE, "dkg3-65536-surplus", model=False)
+    sess.oracle(r.err == "IncorrectNumberOfPackages", "part3 accepted 65536 surplus entries in both maps past its count check (%s)" % r.raw[:70], [req])
+    sess.case("wrap3|%s|%s" % (suite, d.sp2[me]), nontrivial=True)
+    sess.count("fault:count-wraps-at-65536")
+
+
 def generate(sess):
     rng = sess.rng
     thorough = sess.tier != "quick"
+    wrapped_count(sess, "toy31")
     for suite in TOY_SUITES:
         for (n, t) in ([(2, 2), (3, 2), (3, 3), (4, 2), (4, 3), (4, 4)] if thorough else [(2, 2), (3, 2), (4, 3)]):
             inject(sess, suite, n, t, rng.choice(ID_KINDS))
